@@ -112,6 +112,7 @@ PROPS = {
             {"pkg": "mcp", "mode": "instr", "test": "TestVerifC18", "scenario_prefix": "burst/", "two_phase": True, "time_s": {"thorough": 1800}},
             {"pkg": "mcp", "mode": "race", "test": "TestVerifC18", "scenario_prefix": "free-race/", "free_runs": {"quick": 60, "thorough": 600}},
             {"pkg": "mcp", "mode": "plain", "test": "TestVerifC18Resources", "scenario_prefix": "resource-", "shards": 1, "gomaxprocs": 16, "time_s": {"quick": 120, "thorough": 1200}},
+            {"pkg": "mcp", "mode": "plain", "test": "TestVerifC18Kinds", "scenario_prefix": "kinds-", "shards": 1},
         ],
         "assumptions": E1_ASSUME,
     },
